@@ -177,7 +177,7 @@ func runActCase(cs *ActCase) (fs []finding) {
 				kind = i
 			}
 		}
-		sc := &scen.Scenario{Nodes: []scen.NodeSpec{{Kind: kind, N: 1, Visits: []scen.Visit{{FirstOK: 1, Post: "first-run"}, {FirstOK: 1, Post: cs.Post}}}}, Root: 0, Runs: 1}
+		sc := &scen.Scenario{Nodes: []scen.NodeSpec{{Kind: kind, N: 1, Visits: []scen.Visit{{FirstOK: 1, Post: cs.Post}, {FirstOK: 1, Post: cs.Post}}}}, Root: 0, Runs: 1} // the first run reports the same action, unconnected then
 		n0 := scen.NewExec(sc).RootNode()
 		hits := 0
 		probe := &probeNode{flyt.NewBaseNode(), &hits}
